@@ -329,3 +329,14 @@ package tchannel
 //@   label failure-registers-no-peer-connection
 //@   ensures err != nil ==> PeerConnsUnchanged(ch)
 //@   property C13
+
+// An init body announces its number of parameters; a body that ends before all
+// announced pairs were read (each pair occupies at least its two 2-byte length
+// prefixes) is an error, never an accepted handshake message.
+//@ func (m *initMessage) read(r *typed.ReadBuffer) (err error)
+//@   label truncated-parameter-list-is-an-error
+//@   ensures err == nil && old(r.err) == nil ==> len(old(r.remaining)) - len(r.remaining) >= 4 + 4 * be16(old(r.remaining), 2)
+//@   loop 0 invariant old(r.err) == nil && r.err == nil ==> len(old(r.remaining)) - len(r.remaining) >= 4 + 4 * i
+//@   loop 0 invariant old(r.err) == nil && r.err == nil ==> np == be16(old(r.remaining), 2)
+//@   loop 0 invariant 0 <= i && i <= int(np)
+//@   property C13
